@@ -95,7 +95,7 @@ package templ
 // block closure's contract requires it) and leave the slot empty on success.
 //@ func (FlushComponent) Render [C10, C13]
 //@   implements Component.Render
-//@   assert {C13} before GetChildren().Render#1: slot() == nil
+//@   assert {C13} before children.Render#1: slot() == nil
 //@   ensures {C13} implies(err == nil, slot() == nil)
 
 // C12: a once handle's content is rendered only if the handle is not yet recorded in this context, and the
